@@ -1482,6 +1482,10 @@ def c16_genexit(ctx):
     ga = cfg_of(ab_f)
     st = [s for s in assigns_to(ab_f, "self._aborting") if is_const(s.value, True)]
     ctx.check(bool(st) and ga.every_path_from([ga.entry], ga.nodes_of_all(st)), st[0] if st else ab_f, "_abort sets _aborting on every path (dispatch stops: C09.ABORT-DOM)")
+    ae = [c for c in calls_in(ab_f) if call_attr(c) == "abort_everything"]
+    for c in ae:
+        ctx.check(bool(st) and ga.every_path_to(ga.nodes_of(c), ga.nodes_of_all(st)), c, "_aborting is raised before the backend is asked to abort (no dispatch while workers are being stopped)",
+                  "the backend is aborted before _aborting is set: a completion arriving meanwhile dispatches further items")
 
 
 def c16_head_only(ctx):
@@ -1587,3 +1591,91 @@ def c16_support(ctx):
         v = r.value
         ctx.check(unparse(v.test) == "self.return_generator" and dotted(v.body) == "output" and isinstance(v.orelse, ast.Call) and call_name(v.orelse) == "list", r,
                   "__call__ returns the generator itself, or list(generator) for return_as='list'")
+
+
+def c01_batchsize(ctx):
+    """The batch size handed to dispatch_one_batch is >= 1 on every path
+    (a zero batch size slices nothing and ends the iteration early)."""
+    f = F(ctx, "AutoBatchingMixin.compute_batch_size", BK)
+    g = cfg_of(f)
+    rets = nodes_of_type(f, ast.Return)
+    ctx.need(rets and all(dotted(r.value) == "batch_size" for r in rets), "compute_batch_size does not return the local batch_size")
+    defs = [a for a in nodes_of_type(f, (ast.Assign, ast.AugAssign)) if "batch_size" in stores_to(a)]
+    dn = {id(d): g.nodes_of(d) for d in defs}
+    n = 0
+    for d in defs:
+        others = set()
+        for o in defs:
+            if o is not d:
+                others.update(dn[id(o)])
+        if not g.path_exists(dn[id(d)], g.nodes_of_all(rets), avoid=others):
+            continue  # overwritten before any return
+        n += 1
+        v = d.value
+        lb = lower_bound(v, None) if not isinstance(d, ast.AugAssign) else None
+        if lb is None and isinstance(v, ast.Call) and call_name(v) == "max":
+            lb = max([x.value for x in v.args if isinstance(x, ast.Constant) and isinstance(x.value, int)] or [None]) if any(isinstance(x, ast.Constant) for x in v.args) else None
+        keep = dotted(v) == "old_batch_size"
+        ctx.check((lb is not None and lb >= 1) or keep, d, "batch_size definition reaching the return is %s" % ("the previous effective batch size" if keep else "bounded below by %s" % lb),
+                  "batch_size = %s reaches the return without a lower bound of 1: a zero batch size makes dispatch_one_batch slice nothing and end the iteration with tasks left" % unparse(v))
+    ctx.floor(n, 3, "definitions of batch_size reaching the return")
+    old = _single_defs(f, "old_batch_size")
+    ctx.check(len(old) == 1 and dotted(old[0].value) == "self._effective_batch_size", old[0] if old else f, "old_batch_size is the stored effective batch size")
+    cls = ctx.repo.cls(BK, "AutoBatchingMixin")
+    for fn in [m for m in cls.body if isinstance(m, ast.FunctionDef)]:
+        for a in nodes_of_type(fn, ast.Assign):
+            if "self._effective_batch_size" in stores_to(a):
+                v = a.value
+                ok = dotted(v) in ("batch_size", "self._DEFAULT_EFFECTIVE_BATCH_SIZE")
+                ctx.check(ok, a, "the stored effective batch size is a bounded batch_size or the default", "effective batch size is stored from %s" % unparse(v))
+    dflt = ctx.res.class_attr(BK, cls, "_DEFAULT_EFFECTIVE_BATCH_SIZE")
+    ctx.check(dflt is not None and isinstance(const_value(dflt), int) and const_value(dflt) >= 1, cls, "the default effective batch size is >= 1")
+    base = F(ctx, "ParallelBackendBase.compute_batch_size", BK)
+    ctx.check(all(isinstance(const_value(r.value), int) and const_value(r.value) >= 1 for r in nodes_of_type(base, ast.Return)), base, "the base backend's batch size is a constant >= 1")
+    init = F(ctx, "Parallel.__init__")
+    t = [n_ for n_ in nodes_of_type(init, ast.If) if "batch_size" in names_in(n_.test) and "Integral" in unparse(n_.test)]
+    ctx.check(bool(t) and "batch_size > 0" in unparse(t[0].test), t[0] if t else init, "a fixed batch_size must be a positive integer")
+    gb = F(ctx, "Parallel._get_batch_size")
+    for r in nodes_of_type(gb, ast.Return):
+        ctx.check(unparse(r.value) in ("self._backend.compute_batch_size()", "self.batch_size"), r, "_get_batch_size returns the backend's estimate or the validated fixed size")
+
+
+def c04_timeout_unordered(ctx):
+    """Unordered mode: the job used for timeout control is re-picked after a
+    retrieval (a completed control job never times out)."""
+    f = F(ctx, "Parallel._retrieve")
+    g = cfg_of(f)
+    picks = [a for a in nodes_of_type(f, ast.Assign) if "timeout_control_job" in stores_to(a) and not is_const(a.value, None)]
+    resets = [a for a in nodes_of_type(f, ast.Assign) if "timeout_control_job" in stores_to(a) and is_const(a.value, None)]
+    pops = [c for c in calls_in(f) if call_attr(c) == "popleft" and dotted(c.func.value) == "self._jobs"]
+    ctx.need(picks and pops, "timeout control job / pop not found in _retrieve")
+    for a in picks:
+        v = a.value
+        ctx.check(isinstance(v, ast.Call) and call_name(v) == "next" and "self._jobs_set" in unparse(v), a, "the control job is picked among the dispatched, not yet delivered jobs")
+        conds = g.conditions_at(g.nodes_of(a))
+        ctx.check(any(unparse(t) == "timeout_control_job is None" and pol for (_, t, pol) in conds), a, "only when no control job is being watched")
+    # edges on which the variable is known to be None / mode is unordered
+    drop = set()
+    none_edges = set()
+    for nd in g.nodes:
+        if nd.kind != "test":
+            continue
+        u = unparse(nd.ast.test)
+        for (t, lab) in nd.succ:
+            if u == "self.return_ordered" and lab == "T":
+                drop.add((nd.id, t, lab))
+            if u == "timeout_control_job is not None" and lab == "F":
+                none_edges.add((nd.id, t, lab))
+            if u == "timeout_control_job is None" and lab == "T":
+                none_edges.add((nd.id, t, lab))
+    starts = set()
+    for a in picks:
+        for nid in g.nodes_of(a):
+            starts.update(t for (t, lab) in g.nodes[nid].succ)
+    r = g.reach(starts, avoid=g.nodes_of_all(resets) | g.nodes_of_all(picks), avoid_edges=drop | none_edges)
+    ctx.check(not (r & g.nodes_of_all(pops)), pops[0], "in unordered mode every path from picking a control job to the next retrieval resets it (a fresh pending job is watched afterwards)",
+              "a job can be retrieved while the old timeout-control job is kept: once that job has completed, a later task that never completes is waited for forever (no TimeoutError)")
+    for a in resets:
+        blk = [s for s in parent(a).body] if hasattr(parent(a), "body") else []
+        cnt = [s for s in nodes_of_type(f, ast.Assign) if "timeout_control_job._completion_timeout_counter" in stores_to(s) and is_const(s.value, None)]
+        ctx.check(bool(cnt), a, "the watched job's timeout counter is cleared as well")
